@@ -311,18 +311,14 @@ func FuzzReadValue(f *testing.F) {
 	})
 }
 
-func TestReplay(t *testing.T) {
-	f, err := ev.ReplayCase()
-	if err != nil {
-		t.Skip("no replay file")
-	}
+func replayOne(t *testing.T, f *ev.Failure) bool {
 	if f.Unit == "deep-nesting" {
 		var dc DeepCase
 		if err := json.Unmarshal(f.Case, &dc); err != nil {
 			t.Fatalf("bad replay case: %v", err)
 		}
 		ev.Report(t, f.Unit, dc, runDeep(dc))
-		return
+		return true
 	}
 	var c Case
 	if err := json.Unmarshal(f.Case, &c); err != nil {
@@ -330,4 +326,8 @@ func TestReplay(t *testing.T) {
 	}
 	var out outcome
 	ev.Report(t, f.Unit, c, withWatchdog(func() error { return checkCase(c, &out) }))
+	return true
 }
+
+func TestReplay(t *testing.T)  { ev.RunReplay(t, replayOne) }
+func TestRegress(t *testing.T) { ev.RunRegress(t, replayOne) }
